@@ -162,6 +162,9 @@ func (self *ProxyServerProtocol) ProcessLockResultCommand(command *protocol.Lock
 
 func (self *ProxyServerProtocol) ProcessLockResultCommandLocked(command *protocol.LockCommand, result uint8, lcount uint16, lrcount uint8, data []byte) error {
 	if self.serverProtocol == defaultServerProtocol {
+		if self.clientId == [16]byte{} {
+			return errors.New("Protocol Closed")
+		}
 		defaultServerProtocol.slock.clientsGlock.Lock()
 		if self.serverProtocol == defaultServerProtocol {
 			if serverProtocol, ok := defaultServerProtocol.slock.clients[self.clientId]; ok {
